@@ -1059,4 +1059,25 @@ theorem ofTensor_cell {ν α : Type} [DecidableEq ν] (shape : Shape ν) (data :
     simp [hb]
 
 
+/-- a constructed tensor has no zero length -/
+theorem tryFrom_lengths_pos {ν α : Type} [DecidableEq ν] (shape : Shape ν) (data : List α)
+    (t : Tensor ν α) (ht : Tensor.tryFrom shape data = some t) :
+    ∀ l ∈ shape.map (·.2), 0 < l := by
+  unfold Tensor.tryFrom at ht
+  cases hv : validateDimensions shape data.length with
+  | some e => simp [hv] at ht
+  | none =>
+    unfold validateDimensions at hv
+    by_cases h1 : data.length ≠ elements shape
+    · simp [h1] at hv
+    · by_cases h2 : hasDuplicates (shape.map (·.1)) = true
+      · simp [h1, h2] at hv
+      · by_cases h3 : shape.any (·.2 == 0) = true
+        · simp [h1, h2, h3] at hv
+        · intro l hl
+          obtain ⟨d, hd, rfl⟩ := List.mem_map.mp hl
+          rcases Nat.eq_zero_or_pos d.2 with h0 | h0
+          · exact absurd (List.any_eq_true.mpr ⟨d, hd, by simp [h0]⟩) h3
+          · exact h0
+
 end EasyMl.Iter
